@@ -161,7 +161,7 @@ def run(ctx):
     # a key may stay in mapped_output_keys only when a mapping that REMAINS outputs it: the still-used scan must not
     # count the mapping being removed (skip index i while it is still in the list, or scan everything once it is gone)
     ck.ob("C01-R4", MOD + "remove_mapping", "still-used-scan-never-counts-the-mapping-being-removed", R.covers("used") in ("exact", "subset"),
-          detail="removal %s the sweep, scan %s index i" % (R.am_removal, "skips" if R.excl.get("used") else "does not skip"))
+          detail="removal %s the sweep, scan %s" % (R.am_removal, R.scan_text("used")))
     for val, outcome, site in R.rows:
         want = ktloops.remove_mapping_spec(val)
         leaves = outcome in ("release", "handover")
